@@ -1660,6 +1660,17 @@ func stepLeader(r *raft, m *pb.Message) error {
 	return nil
 }
 
+// selfVoteDelivered reports whether the vote this candidate cast for itself has
+// been delivered back to it, i.e. whether its term and vote are durable. A
+// candidate that is not a voter of its configuration casts no vote for itself.
+func (r *raft) selfVoteDelivered() bool {
+	if _, isVoter := r.trk.Voters.IDs()[r.id]; !isVoter {
+		return true
+	}
+	_, voted := r.trk.Votes[r.id]
+	return voted
+}
+
 // stepCandidate is shared by StateCandidate and StatePreCandidate; the difference is
 // whether they respond to MsgVoteResp or MsgPreVoteResp.
 func stepCandidate(r *raft, m *pb.Message) error {
@@ -1692,6 +1703,14 @@ func stepCandidate(r *raft, m *pb.Message) error {
 		case quorum.VoteWon:
 			if r.state == StatePreCandidate {
 				r.campaign(campaignElection)
+			} else if !r.selfVoteDelivered() {
+				// The node's own vote (and with it its term) is not durable yet:
+				// campaign() queues the self-addressed MsgVoteResp behind the
+				// write of the HardState. Leading before it is delivered would
+				// allow a restarted incarnation to campaign, and lead, in this
+				// term a second time. The election completes when the self
+				// vote arrives.
+				r.logger.Infof("%x won a quorum of votes at term %d before its own vote is durable; waiting", r.id, r.Term)
 			} else {
 				r.becomeLeader()
 				r.bcastAppend()
